@@ -281,7 +281,10 @@ def run_history(seq):
         devs = []
         try:
             for i, q in enumerate(seq):
-                when = pd.Timestamp(f'2024-09-0{q["d"]}T{q["h"]:02d}:00:00', tz='UTC')
+                # WeatherCache.tla: the instant lies anywhere inside its hour (Minutes) - the hour it belongs to is the one
+                # that has begun, also at a quarter to the next one
+                mm = (0, 45, 29, 59, 30)[(i + q['d'] + q['h'] + len(seq)) % 5]
+                when = pd.Timestamp(f'2024-09-0{q["d"]}T{q["h"]:02d}:{mm:02d}:00', tz='UTC')
                 prev = [(x['d'], x['h']) for x in seq[:i]]
                 try:
                     gs = w.get_ground_speed(time=when, gt_point=pt, altitude=alt, true_airspeed=0.0, azimuth=90.0)
